@@ -325,6 +325,24 @@ def careful_apply(ar, op, events):
     return ar.apply(op), None
 
 
+class TlcJobs:
+    """All TLC runs of a check are started at once on a small thread pool (each is its own JVM);
+    results are collected, and accounted with ctx.add_tlc, by the main thread when needed."""
+    def __init__(self, n=6):
+        from concurrent.futures import ThreadPoolExecutor
+        self.ex = ThreadPoolExecutor(n)
+        self.fut = {}
+
+    def submit(self, name, module, **kw):
+        self.fut[name] = self.ex.submit(core.tlc, module, **kw)
+
+    def result(self, name):
+        return self.fut[name].result()
+
+    def close(self):
+        self.ex.shutdown(wait=False, cancel_futures=True)
+
+
 def memory_cfg(isz, rootlen, rootkind, maxviews, maxsteps, idxneg, idxhi, seeds=(17,), variant="faithful",
                prune=False, view=True, props=True):
     s = ["SPECIFICATION Spec", "CONSTANTS ISz = %d" % isz, "  RootLen = %d" % rootlen,
